@@ -344,3 +344,166 @@ Proof.
   { rewrite !map_map. rewrite <- (map_id ps) at 2. apply map_ext. intros g. cbn [group_of g_terms]. apply terms_profile. }
   rewrite Eq, Ea, Ep. reflexivity.
 Qed.
+
+(* ================================================================== entries and the whole field *)
+Fixpoint alts_of (rs : list (relation dversion)) : list (str * rel) :=
+  match rs with
+  | [] => []
+  | r :: rest => ([32%N], rel_of (nonempty_list rest) r) :: alts_of rest
+  end.
+Definition item_of (e : list (relation dversion)) : item :=
+  match e with
+  | [] => IEmpty
+  | r :: rs => IEntry (rel_of (nonempty_list rs) r) (alts_of rs)
+  end.
+Definition rf_of (rs : list (list (relation dversion))) : rfield :=
+  match rs with
+  | [] => mk_rfield [] IEmpty []
+  | e :: es => mk_rfield [] (item_of e) (map (fun e' => ([32%N], item_of e')) es)
+  end.
+
+Lemma entry_policy_inv e : entry_policy_ok e = true ->
+  exists r rs, e = r :: rs /\ forallb relation_policy_ok (r :: rs) = true.
+Proof. unfold entry_policy_ok. destruct e as [|r rs]; [discriminate|]. cbn [nonempty_list andb]. intros H. exists r, rs. split; [reflexivity|exact H]. Qed.
+Lemma policy_okb r : relation_policy_ok r = true -> relation_okb r = true.
+Proof. unfold relation_policy_ok. intros H. do 3 (apply andb_true_iff in H; destruct H as [H _]). exact H. Qed.
+
+(* ---- text ---- *)
+Lemma rels_text_of rs : forall r, forallb relation_policy_ok (r :: rs) = true ->
+  rels_text (rel_of (nonempty_list rs) r) (alts_of rs) = print_entry dv_print (r :: rs).
+Proof.
+  induction rs as [|r' rs IH]; intros r H; cbn [forallb] in H; apply andb_true_iff in H; destruct H as [Hr Hrs].
+  - cbn [alts_of rels_text nonempty_list]. rewrite (rel_text_of false r (policy_okb r Hr)), !app_nil_r. reflexivity.
+  - cbn [alts_of rels_text nonempty_list]. rewrite (rel_text_of true r (policy_okb r Hr)), (IH r' Hrs).
+    rewrite (RelLossyP.print_entry_cons dversion dv_print r (r' :: rs)) by discriminate. rewrite <- !app_assoc. reflexivity.
+Qed.
+Lemma item_text_of e : entry_policy_ok e = true -> item_text (item_of e) = print_entry dv_print e.
+Proof. intros H. destruct (entry_policy_inv e H) as (r & rs & -> & Hrs). cbn [item_of item_text]. apply rels_text_of, Hrs. Qed.
+
+Lemma rrender_rf_of rs : relations_policy_ok rs = true -> rrender (rf_of rs) = print_relations dv_print rs.
+Proof.
+  unfold relations_policy_ok. destruct rs as [|e es]; [reflexivity|]. cbn [forallb]. intros H.
+  apply andb_true_iff in H. destruct H as [He Hes]. unfold rrender, rf_of. cbn [f_lead f_first f_rest app].
+  revert e He; induction es as [|e' es IH]; intros e He.
+  - cbn [map items_text]. rewrite (item_text_of e He), app_nil_r. reflexivity.
+  - cbn [forallb] in Hes. apply andb_true_iff in Hes. destruct Hes as [He' Hes].
+    cbn [map items_text]. rewrite (item_text_of e He), (IH Hes e' He').
+    rewrite (RelLossyP.print_relations_cons dversion dv_print e (e' :: es)) by discriminate. reflexivity.
+Qed.
+
+(* ---- well-formedness ---- *)
+Lemma wf_alts_of rs : forallb relation_policy_ok rs = true -> forallb wf_alt (alts_of rs) = true.
+Proof.
+  induction rs as [|r rs IH]; [reflexivity|]. cbn [forallb alts_of]. intros H. apply andb_true_iff in H. destruct H as [H1 H2].
+  rewrite (IH H2), andb_true_r. unfold wf_alt. cbn [fst snd ws_ok forallb is_fws N.eqb Pos.eqb orb andb]. apply wf_rel_of, H1.
+Qed.
+Lemma wf_item_of a e : entry_policy_ok e = true -> wf_item a (item_of e) = true.
+Proof.
+  intros H. destruct (entry_policy_inv e H) as (r & rs & -> & Hrs). cbn [forallb] in Hrs. apply andb_true_iff in Hrs.
+  destruct Hrs as [H1 H2]. cbn [item_of wf_item]. rewrite (wf_rel_of _ r H1), (wf_alts_of rs H2). reflexivity.
+Qed.
+Lemma wf_rf_of a rs : relations_policy_ok rs = true -> wf_rfield a (rf_of rs) = true.
+Proof.
+  unfold relations_policy_ok. destruct rs as [|e es]; [reflexivity|]. cbn [forallb]. intros H.
+  apply andb_true_iff in H. destruct H as [He Hes]. unfold wf_rfield, rf_of. cbn [f_lead f_first f_rest ws_ok forallb andb].
+  rewrite (wf_item_of a e He). cbn [andb]. induction es as [|e' es IH]; [reflexivity|]. cbn [forallb map] in *.
+  apply andb_true_iff in Hes. destruct Hes as [He' Hes]. rewrite (IH Hes), andb_true_r.
+  unfold wf_more. cbn [fst snd ws_ok forallb is_fws N.eqb Pos.eqb orb andb]. apply wf_item_of, He'.
+Qed.
+
+(* ---- the conversion back on the tree the parser builds ---- *)
+Lemma conv_rels_elems rs : forall r last, forallb relation_policy_ok (r :: rs) = true ->
+  res_all to_lossy (nodes_of RELATION (rels_elems (rel_of (nonempty_list rs) r) (alts_of rs) last)) = Ok (r :: rs).
+Proof.
+  induction rs as [|r' rs IH]; intros r last H; cbn [forallb] in H; apply andb_true_iff in H; destruct H as [Hr Hrs];
+    cbn [alts_of rels_elems nonempty_list].
+  - change (nodes_of RELATION (rel_tree ?x last :: ?y)) with (rel_tree x last :: nodes_of RELATION y).
+    assert (E : nodes_of RELATION (if last then ws_elems (rel_left (rel_of false r) last) else []) = [])
+      by (destruct last; [apply nodes_of_ws|reflexivity]).
+    rewrite E. cbn [res_all]. rewrite (to_lossy_rel_tree false last r Hr). reflexivity.
+  - change (nodes_of RELATION (rel_tree ?x false :: ?y)) with (rel_tree x false :: nodes_of RELATION y).
+    rewrite nodes_of_app, nodes_of_ws. cbn [app].
+    change (nodes_of RELATION (Tok PIPE [124%N] :: ?x)) with (nodes_of RELATION x).
+    rewrite nodes_of_app, nodes_of_ws. cbn [app res_all].
+    rewrite (to_lossy_rel_tree true false r Hr), (IH r' last Hrs). reflexivity.
+Qed.
+
+Lemma entry_to_lossy_entry r rs last : forallb relation_policy_ok (r :: rs) = true ->
+  entry_to_lossy (Node ENTRY (rels_elems (rel_of (nonempty_list rs) r) (alts_of rs) last)) = Ok (r :: rs).
+Proof. intros H. exact (conv_rels_elems rs r last H). Qed.
+
+Lemma conv_items_elems es : forall e, forallb entry_policy_ok (e :: es) = true ->
+  res_all entry_to_lossy (nodes_of ENTRY (items_elems (item_of e) (map (fun e' => ([32%N], item_of e')) es))) = Ok (e :: es).
+Proof.
+  induction es as [|e' es IH]; intros e H; cbn [forallb] in H; apply andb_true_iff in H; destruct H as [He Hes];
+    destruct (entry_policy_inv e He) as (r & rs & -> & Hrs).
+  - cbn [map items_elems item_of item_elems is_nil app]. rewrite app_nil_r.
+    change (nodes_of ENTRY (Node ENTRY ?c :: ?x)) with (Node ENTRY c :: nodes_of ENTRY x).
+    rewrite nodes_of_ws. cbn [res_all]. rewrite (entry_to_lossy_entry r rs true Hrs). reflexivity.
+  - cbn [map items_elems item_of item_elems is_nil]. rewrite nodes_of_app.
+    change (nodes_of ENTRY (Node ENTRY ?c :: ?x)) with (Node ENTRY c :: nodes_of ENTRY x).
+    rewrite nodes_of_ws. change (nodes_of ENTRY (Tok COMMA [44%N] :: ?x)) with (nodes_of ENTRY x).
+    rewrite nodes_of_app, nodes_of_ws. cbn [app res_all]. rewrite (entry_to_lossy_entry r rs false Hrs).
+    change (map (fun e'0 => ([32%N], item_of e'0)) es) with (map (fun e'0 => ([32%N], item_of e'0)) es).
+    rewrite (IH e' Hes). reflexivity.
+Qed.
+
+Lemma field_to_lossy_rtree rs : relations_policy_ok rs = true -> field_to_lossy (rtree_of (rf_of rs)) = Ok rs.
+Proof.
+  intros H. destruct rs as [|e es]; [reflexivity|].
+  unfold field_to_lossy, relations_entries, r_entries, rnodes_of_kind, rtree_of, rf_of. cbn [children f_lead f_first f_rest].
+  change (ws_elems []) with (@nil rtree). cbn [app].
+  fold (nodes_of ENTRY (items_elems (item_of e) (map (fun e' => ([32%N], item_of e')) es))).
+  apply conv_items_elems. exact H.
+Qed.
+
+(* clause 3, field level: lossless::Relations::from_str(rs.to_string()) converts back to rs *)
+Theorem read_field rs : relations_policy_ok rs = true ->
+  exists t, RelParse.relations_from_str (print_relations dv_print rs) = Ok t /\
+            parse_relaxed (print_relations dv_print rs) true = Ok (t, 0) /\
+            text t = print_relations dv_print rs /\
+            field_to_lossy t = Ok rs.
+Proof.
+  intros H. exists (rtree_of (rf_of rs)).
+  destruct (C10_lossless_all true (rf_of rs) (wf_rf_of true rs H)) as (_ & _ & P & T & _).
+  pose proof (from_str_rrender (rf_of rs) (wf_rf_of false rs H)) as S.
+  rewrite (rrender_rf_of rs H) in P, T, S. repeat split; auto. apply field_to_lossy_rtree, H.
+Qed.
+
+Theorem read_field_as_lossy_rt rs : relations_policy_ok rs = true ->
+  read_field_as_lossy (print_relations dv_print rs) = Ok rs.
+Proof. intros H. destruct (read_field rs H) as (t & S & _ & _ & L). unfold read_field_as_lossy. rewrite S. exact L. Qed.
+
+(* ---- Entry::from_str and Relation::from_str on the printed text ---- *)
+Lemma entries_single e r rs : e = r :: rs ->
+  r_entries (rtree_of (rf_of [e])) = [Node ENTRY (rels_elems (rel_of (nonempty_list rs) r) (alts_of rs) true)].
+Proof.
+  intros ->. unfold r_entries, rnodes_of_kind, rtree_of, rf_of. cbn [children f_lead f_first f_rest map].
+  change (ws_elems []) with (@nil rtree). cbn [app items_elems item_of item_elems is_nil]. rewrite app_nil_r.
+  fold (nodes_of ENTRY (Node ENTRY (rels_elems (rel_of (nonempty_list rs) r) (alts_of rs) true)
+                        :: ws_elems (rels_left (rel_of (nonempty_list rs) r) (alts_of rs) true))).
+  change (nodes_of ENTRY (Node ENTRY ?c :: ?x)) with (Node ENTRY c :: nodes_of ENTRY x). rewrite nodes_of_ws. reflexivity.
+Qed.
+
+Theorem read_entry_as_lossy_rt e : entry_policy_ok e = true -> read_entry_as_lossy (print_entry dv_print e) = Ok e.
+Proof.
+  intros H. assert (Hf : relations_policy_ok [e] = true) by (cbn; rewrite H; reflexivity).
+  pose proof (from_str_rrender (rf_of [e]) (wf_rf_of false [e] Hf)) as S. rewrite (rrender_rf_of [e] Hf) in S.
+  change (print_relations dv_print [e]) with (print_entry dv_print e) in S.
+  destruct (entry_policy_inv e H) as (r & rs & E & Hrs).
+  unfold read_entry_as_lossy, entry_from_str. rewrite S, (entries_single e r rs E). cbn [bind].
+  subst e. apply entry_to_lossy_entry, Hrs.
+Qed.
+
+Theorem read_as_lossy_rt r : relation_policy_ok r = true -> read_as_lossy (print_relation dv_print r) = Ok r.
+Proof.
+  intros H. assert (He : entry_policy_ok [r] = true) by (cbn; rewrite H; reflexivity).
+  assert (Hf : relations_policy_ok [[r]] = true) by (cbn; rewrite H; reflexivity).
+  pose proof (from_str_rrender (rf_of [[r]]) (wf_rf_of false [[r]] Hf)) as S. rewrite (rrender_rf_of [[r]] Hf) in S.
+  change (print_relations dv_print [[r]]) with (print_relation dv_print r) in S.
+  unfold read_as_lossy, RelParse.relation_from_str, entry_from_str. rewrite S, (entries_single [r] r [] eq_refl).
+  cbn [alts_of nonempty_list rels_elems]. unfold r_relations, rnodes_of_kind. cbn [children].
+  fold (nodes_of RELATION (rel_tree (rel_of false r) true :: ws_elems (rel_left (rel_of false r) true))).
+  change (nodes_of RELATION (rel_tree ?x true :: ?y)) with (rel_tree x true :: nodes_of RELATION y). rewrite nodes_of_ws.
+  cbn [bind]. apply to_lossy_rel_tree, H.
+Qed.
